@@ -54,6 +54,12 @@ func TestC01(t *testing.T) {
 	m.Assume("h/ref/aead8439 reproduces RFC 8439 §2.3.2/2.4.2/2.5.2/2.6.2/2.8.2/A.3 and draft-xchacha §2.2.1/A.3 vectors (its own unit test); libsodium " + sodiumaead.Version() + " is used as a second witness, a disagreement between the two oracles is reported as inconclusive")
 	m.Assume("guard pages catch out-of-bounds accesses that cross the operand's page boundary side being tested (end- or start-aligned); canaries catch writes inside dst's own capacity")
 
+	if mon.RaceBuild {
+		// -race build: only the shared-value concurrency stream (the detector
+		// costs 5-15x; the other streams are single-goroutine)
+		c01Concurrent(m, paths())
+		return
+	}
 	P := c01PtLens(m.Thorough())
 	K := m.N(20, 80)
 	nLarge := m.N(20, 400)
